@@ -7,6 +7,8 @@ package server
 // connections that are really open; at every connect the acceptance is compared with the room that is really left.
 
 import (
+	"sync"
+	"sync/atomic"
 	"bufio"
 	"context"
 	"crypto/ed25519"
@@ -307,4 +309,110 @@ func TestC14Replay(t *testing.T) {
 		results = append(results, c14Run(srv, c))
 	}
 	vWriteJSON(t, "VERIF_OUT", results)
+}
+
+// Churn: connections ending while others are being accepted - the counter is updated from the accept loop and from
+// every connection's goroutine at once.  Many short-lived connections (closed before, during or after the handshake)
+// from parallel workers; whenever the workers pause, the reported count must equal the connections still open (0),
+// it must never be negative or above the limit, and afterwards the full limit must be available again.
+func TestC14Churn(t *testing.T) {
+	vInit("none")
+	dir, _ := os.MkdirTemp("", "c14c-")
+	defer os.RemoveAll(dir)
+	cwd, _ := os.Getwd()
+	defer os.Chdir(cwd)
+	c14Setup(t, dir)
+	rounds, workers, per := 6, 16, 40
+	fmt.Sscanf(os.Getenv("VERIF_ROUNDS"), "%d", &rounds)
+	max := 24
+	srv := c14Start(t, max)
+	defer srv.cancel()
+	var bad []string
+	var total int64
+	seed := vSeed()
+	for r := 0; r < rounds && len(bad) == 0; r++ {
+		stop := make(chan struct{})
+		var sampleBad atomic.Value
+		go func() { // sampler: the count is never negative nor above the limit
+			for {
+				select {
+				case <-stop:
+					return
+				default:
+				}
+				if n := srv.counter(); n < 0 || n > max {
+					sampleBad.Store(fmt.Sprintf("round %d: the server reports %d open connections (limit %d)", r, n, max))
+				}
+				time.Sleep(200 * time.Microsecond)
+			}
+		}()
+		var wg sync.WaitGroup
+		for w := 0; w < workers; w++ {
+			wg.Add(1)
+			go func(w int) {
+				defer wg.Done()
+				rng := mrand.New(mrand.NewSource(seed*1000003 + int64(r*100+w)))
+				for i := 0; i < per; i++ {
+					tcp, err := net.DialTimeout("tcp", srv.addr, time.Second)
+					if err != nil {
+						continue
+					}
+					atomic.AddInt64(&total, 1)
+					switch rng.Intn(4) {
+					case 0: // gone at once
+					case 1: // gone during the version exchange
+						tcp.Write([]byte("SSH-2.0-churn\r\n"))
+						time.Sleep(time.Duration(rng.Intn(300)) * time.Microsecond)
+					case 2: // wrong password, then gone
+						cfg := &gossh.ClientConfig{User: "alice", Auth: []gossh.AuthMethod{gossh.Password("wrong")},
+							HostKeyCallback: gossh.InsecureIgnoreHostKey(), Timeout: 2 * time.Second}
+						gossh.NewClientConn(tcp, srv.addr, cfg)
+					default: // health login, then closed
+						cfg := &gossh.ClientConfig{User: config.HealthUser, Auth: []gossh.AuthMethod{gossh.Password(config.HealthUser)},
+							HostKeyCallback: gossh.InsecureIgnoreHostKey(), Timeout: 2 * time.Second}
+						if cc, chans, reqs, err := gossh.NewClientConn(tcp, srv.addr, cfg); err == nil {
+							cl := gossh.NewClient(cc, chans, reqs)
+							time.Sleep(time.Duration(rng.Intn(500)) * time.Microsecond)
+							cl.Close()
+						}
+					}
+					tcp.Close()
+				}
+			}(w)
+		}
+		wg.Wait()
+		close(stop)
+		if s, _ := sampleBad.Load().(string); s != "" {
+			bad = append(bad, s)
+		}
+		if n := srv.settle(); n != 0 {
+			bad = append(bad, fmt.Sprintf("round %d: all %d connections of the round are over, the server still reports %d open connections", r, workers*per, n))
+		}
+	}
+	// the whole limit is available again
+	if len(bad) == 0 {
+		var held []net.Conn
+		for i := 0; i < max; i++ {
+			tcp, err := net.DialTimeout("tcp", srv.addr, time.Second)
+			if err != nil {
+				bad = append(bad, "dial: "+err.Error())
+				break
+			}
+			br := bufio.NewReader(tcp)
+			tcp.SetReadDeadline(time.Now().Add(time.Second))
+			if _, err := br.Peek(1); err != nil {
+				bad = append(bad, fmt.Sprintf("after the churn connection %d of %d allowed ones was refused", i+1, max))
+				tcp.Close()
+				break
+			}
+			held = append(held, tcp)
+		}
+		for _, c := range held {
+			c.Close()
+		}
+		if n := srv.settle(); n != 0 && len(bad) == 0 {
+			bad = append(bad, fmt.Sprintf("after the last connections ended the server reports %d open connections", n))
+		}
+	}
+	vWriteJSON(t, "VERIF_OUT", map[string]interface{}{"connections": total, "bad": bad})
 }
